@@ -51,6 +51,8 @@ def run(tier, seed, replay=None):
             prog.prolog = "Bidi = true;"
             prog.glyph_stmts = list(prog.glyph_stmts) + ["cMirTarget = glyphid(%s);" % ", ".join(map(str, tgt)),
                                                          "cMirAll = glyphid(2..%d) {mirror.glyph = cMirTarget};" % (n_ - 1)]
+        if i % 5 == 2 and np <= 6:
+            gen.add_collision_pass_then_rules(rng, prog)
         return prog
     cases = harness.gen_cases(seed, 14, n, g)
     results = harness.compile_cases(build, work, cases)
